@@ -221,6 +221,7 @@ func ruleC20(r *Report) {
 	checkAtomicSections(r, p, idpFns, guard)
 	checkStaleWriteBack(r, p, idpFns, guard)
 	safely(r, func() { checkStoreOpsAtomic(r, p, la, idpFns, guard) })
+	safely(r, func() { checkCompanionState(r, p, la, idpFns, table) })
 	order := map[string]map[string]string{} // held -> acquired -> where
 	for _, fn := range idpFns {
 		f := la.Facts(fn)
@@ -876,3 +877,125 @@ func checkStoreOpsAtomic(r *Report, p *Prog, la *LockAnalysis, fns []*ssa.Functi
 
 // inCycle: the block lies on a cycle of the control-flow graph.
 func inCycle(b *ssa.BasicBlock) bool { return blockReaches(b, b) }
+
+// checkCompanionState: C20.guarded for the other fields of a struct that guards a map with its mutex. A field that
+// request-time code changes (a plain store, or a mutating sync/atomic method) and whose value decides a branch or a
+// result is part of the same state as the map (an emptiness flag, a counter of entries, a version): every access to it
+// holds the mutex, in write mode for changes. An atomic flag read before the lock is taken and written on either side
+// of it makes the pair (flag, map) observable in states no sequential history of the map produces.
+func checkCompanionState(r *Report, p *Prog, la *LockAnalysis, idpFns []*ssa.Function, table []guardEntry) {
+	mutating := map[string]bool{"Store": true, "Swap": true, "CompareAndSwap": true, "Add": true, "And": true, "Or": true}
+	type acc struct {
+		fn    *ssa.Function
+		in    ssa.Instruction
+		write bool
+	}
+	byType := map[string]guardEntry{}
+	guardedField := map[string]bool{}
+	for _, g := range table {
+		byType[g.Type] = g
+		guardedField[g.Type+"."+g.Field] = true
+	}
+	accs := map[string][]acc{}
+	mutated := map[string]bool{}
+	decides := map[string]bool{}
+	feedsDecision := func(v ssa.Value) bool {
+		seen := map[ssa.Value]bool{}
+		var walk func(v ssa.Value, d int) bool
+		walk = func(v ssa.Value, d int) bool {
+			if d > 3 || seen[v] || v.Referrers() == nil {
+				return false
+			}
+			seen[v] = true
+			for _, rf := range *v.Referrers() {
+				switch x := rf.(type) {
+				case *ssa.If, *ssa.Return:
+					return true
+				case *ssa.BinOp:
+					if walk(x, d+1) {
+						return true
+					}
+				case *ssa.UnOp:
+					if walk(x, d+1) {
+						return true
+					}
+				case *ssa.Phi:
+					if walk(x, d+1) {
+						return true
+					}
+				}
+			}
+			return false
+		}
+		return walk(v, 0)
+	}
+	for _, fn := range idpFns {
+		for _, b := range fn.Blocks {
+			for _, in := range b.Instrs {
+				fa, ok := in.(*ssa.FieldAddr)
+				if !ok {
+					continue
+				}
+				n := namedOf(fa.X.Type())
+				if n == nil {
+					continue
+				}
+				g, ok := byType[n.Obj().Name()]
+				if !ok {
+					continue
+				}
+				fname := fieldName(fa.X.Type(), fa.Field)
+				key := n.Obj().Name() + "." + fname
+				if guardedField[key] || key == g.Mutex || isMutexType(derefType(fa.Type())) || isFreshLocal(fa.X) {
+					continue
+				}
+				for _, rf := range *fa.Referrers() {
+					switch x := rf.(type) {
+					case *ssa.Store:
+						if x.Addr == ssa.Value(fa) {
+							accs[key] = append(accs[key], acc{fn, x, true})
+							mutated[key] = true
+						}
+					case *ssa.UnOp:
+						accs[key] = append(accs[key], acc{fn, x, false})
+						if feedsDecision(x) {
+							decides[key] = true
+						}
+					case ssa.CallInstruction:
+						sc := x.Common().StaticCallee()
+						if sc == nil || len(x.Common().Args) == 0 || x.Common().Args[0] != ssa.Value(fa) || sc.Pkg == nil || sc.Pkg.Pkg.Path() != "sync/atomic" {
+							continue
+						}
+						w := mutating[sc.Name()]
+						accs[key] = append(accs[key], acc{fn, x, w})
+						if w {
+							mutated[key] = true
+						}
+						if v, isVal := x.(ssa.Value); isVal && feedsDecision(v) {
+							decides[key] = true
+						}
+					}
+				}
+			}
+		}
+	}
+	var keys []string
+	for k := range accs {
+		if mutated[k] && decides[k] {
+			keys = append(keys, k)
+		}
+	}
+	sort.Strings(keys)
+	for _, key := range keys {
+		g := byType[strings.SplitN(key, ".", 2)[0]]
+		for _, a := range accs[key] {
+			must := la.Facts(a.fn).mustAt[a.in]
+			kind, need := "read", modeR
+			if a.write {
+				kind, need = "change", modeW
+			}
+			r.Check(must[g.Mutex] >= need, "C20.guarded", fmt.Sprintf("%s: %s of %s, which request-time code changes and branches on", p.FnName(a.fn), kind, key), p.InstrPos(a.in),
+				"held "+stateString(must), fmt.Sprintf("%s is part of the state %s guards, and this %s does not hold it (held: %s): the field and the map are seen in combinations that no order of the store operations produces", key, g.Mutex, kind, stateString(must)))
+		}
+	}
+}
